@@ -69,6 +69,8 @@ struct State {
     PtrSet freed;          // bases freed during this run and not handed out again
     PtrVec quarantine;
     PtrSet quarantined;    // user pointers of the blocks in `quarantine` (still withheld from the real allocator)
+    struct Spare { size_t size; void *user; };
+    std::vector<Spare, MallocAlloc<Spare>> spare;      // HEAP_SHARED_LIFO: released SUT blocks, most recent last
     HeapPolicy policy = HEAP_IMMEDIATE;
     uint8_t fill_fresh = 0xA5, fill_freed = 0xDD;
     bool run_active = false;
@@ -144,7 +146,14 @@ void *do_alloc(size_t size, bool array, size_t align, bool nothrow, bool cstyle 
         size_t rounded = (size + align - 1) / align * align;
         p = RAW_ALIGNED(align, rounded ? rounded : align);
     } else {
-        p = RAW_MALLOC(size + 2 * RZ + (size ? 0 : 1));
+        p = nullptr;
+        if (sut && !cstyle) {      // HEAP_SHARED_LIFO: the most recently released block of exactly this size, whoever released it
+            Lock l;
+            if (s->run_active && s->policy == HEAP_SHARED_LIFO)
+                for (size_t k = s->spare.size(), seen = 0; k-- > 0 && seen < 64; ++seen)
+                    if (s->spare[k].size == size) { p = (char *)s->spare[k].user - RZ; s->spare.erase(s->spare.begin() + (std::ptrdiff_t)k); break; }
+        }
+        if (!p) p = RAW_MALLOC(size + 2 * RZ + (size ? 0 : 1));
         if (p && RZ) { std::memset(p, RZ_BYTE, RZ); p = (char *)p + RZ; std::memset((char *)p + size, RZ_BYTE, RZ); }
     }
     if (!p) { if (nothrow) return nullptr; throw std::bad_alloc(); }
@@ -186,6 +195,7 @@ void do_free(void *p, bool array, bool cstyle = false) {
         s->freed.insert(p);
         if (e.sut) std::memset(p, s->fill_freed, e.size);
         if (s->policy == HEAP_QUARANTINE && e.sut) { s->quarantine.push_back(e.aligned ? p : (char *)p - RZ); s->quarantined.insert(p); return; }
+        if (s->policy == HEAP_SHARED_LIFO && e.sut && !e.aligned && !e.cstyle && !(RZ && !rz_intact(p, e.size))) { s->spare.push_back(State::Spare{e.size, p}); return; }
     }
 #else
     if (s->run_active) s->freed.insert(p);
@@ -260,6 +270,8 @@ size_t heap_end_run() {
     {
         Lock l;
         q.swap(s->quarantine);
+        for (auto &sp : s->spare) q.push_back((char *)sp.user - RZ);
+        s->spare.clear();
         s->freed.clear(); s->quarantined.clear();
         s->run_active = false;
         live = s->live_sut_this_run;
